@@ -281,6 +281,11 @@ func Compress(source []byte, level int) []byte {
 		cwordVal = (cwordVal >> 1)
 	}
 	fastWrite(destination, cwordPtr, int(cwordVal>>1)|0x80000000, CWORD_LEN)
+	// like the reference implementation, emit at least 9 bytes after the header: its
+	// decoder reads 4 bytes ahead and, in memory-safe mode, rejects a shorter stream
+	if dst < DEFAULT_HEADERLEN+9 {
+		dst = DEFAULT_HEADERLEN + 9
+	}
 	writeHeader(destination, level, true, len(source), dst)
 
 	d2 = make([]byte, dst)
